@@ -9,6 +9,7 @@ NOTE = ("Static analysis only. Trusted base: CPython ast.parse of /repo/src/fpar
         "ParserFactory.create in a /venv/bin/python subprocess (inspect snapshot: classes, MROs, registries, Pattern constants) -- "
         "no reader is built and nothing is parsed; the oracle tables under /verif/oracle; the rule/exception tables in /verif/rules. "
         "Decides only the structural clauses named in 'text' (necessary conditions of the property), not the behavioural equality itself. "
+        "Rules described as 'decided as a table' or 'by interpretation' interpret the AST of one function/class on a committed table of sample inputs with the checker's own evaluator (no repository code is imported or executed for them); they decide those samples only. "
         "Implicit exceptions are modelled only for the armed classes (raising str.index, format arity, optional-element and nullable-result "
         "dereference, index on possibly-empty matched text); run-time values are not modelled beyond the finite decision tables named in 'text'.")
 
@@ -122,30 +123,30 @@ CLAIMS = {
 # texts of rules added after the table above was written (appended to 'text')
 ADDENDA = {
     "C01": "Later additions: the free-form continuation decision table (shared with C04.R8, now with label/construct-name extraction "
-           "interpreted from the source and blank-line rows); DATA/NAMELIST/COMMON/DIMENSION list-statement matchers decided as tables (37 rows); index provenance (C01.R21).",
-    "C02": "Later additions: continuation decision table (C02.R19); list-statement matcher tables with the re-assembly invariant (C02.R20); index provenance (C02.R21, 282 slices; found and fixed F45, F46).",
-    "C03": "Later additions: BinaryOpBase.match decided as a table of 26 rows (operands ending in a dot, excluded operators, split side).",
-    "C04": "Later additions: continuation rows for lines that begin with digits / name: (never a label or construct name) and blank lines.",
+           "interpreted from the source and blank-line rows); DATA/NAMELIST/COMMON/DIMENSION list-statement matchers decided as tables (37 rows); index provenance (C01.R21). Also: class-local round trip by interpretation over 265 sample texts (C01.R22: accepted, literals/groups carried over, fixpoint; children are recording stubs validated two levels deep); string_replace_map and its inverse interpreted on 15 lines (R23); block printers on value-comparing stubs (R24); ';' split (R25); list-element registration of 2008 overrides (R26). Found and fixed F49, F51.",
+    "C02": "Later additions: continuation decision table (C02.R19); list-statement matcher tables with the re-assembly invariant (C02.R20); index provenance (C02.R21, 282 slices; found and fixed F45, F46). Also: the class-local round trip with token-level equality up to listed canonicalisations (C02.R22; 2 known rows F54, F55); replace-map table (R23; F50, F51 fixed); block printers (R24).",
+    "C03": "Later additions: BinaryOpBase.match decided as a table of 26 rows (operands ending in a dot, excluded operators, split side). Also: BinaryOpBase rows with operand classes that refuse their text; no literal with a signed exponent stays visible after the replace map (R10).",
+    "C04": "Later additions: continuation rows for lines that begin with digits / name: (never a label or construct name) and blank lines. Also: the continuation loop interpreted over multi-line statements; layout widening of every blank of 265 samples (R10, 908 texts).",
     "C05": "Later additions: fixed-form continuation table (R9), inline-comment table (R10), and no memoised function on the "
-           "format-detection / reading path reads the file system (R11, 83 functions).",
+           "format-detection / reading path reads the file system (R11, 83 functions). Also: open-literal state across comment/blank lines in the fixed-form continuation table.",
     "C06": "Later additions: accessor indices within matcher arity (R19, 176 sites); block engine addresses the opening statement by "
-           "start_idx (R20); no dereference on a path on which the variable is None for certain (R21, path-sensitive, 40 functions, 1 reviewed exception).",
+           "start_idx (R20); no dereference on a path on which the variable is None for certain (R21, path-sensitive, 40 functions, 1 reviewed exception). Also: the process-terminating name-mismatch path of the block engine is enabled for the eight program-unit blocks only (R22); the reader's item constructors agree on recorded state (R23).",
     "C07": "Later additions: definite-None dereference on clean-up paths (R10); the statement ends where the continuation table says (R11).",
     "C08": "Later additions: only Program.match's end-of-input probe may call reader.next() inside the parser (R13, who-may-call).",
     "C09": "Later additions: no instance attribute mutated in place is bound to a module/class-level mutable or mutable default "
-           "(R11, 24 bindings); the table registry is wiped as a whole only by ParserFactory.create (R12).",
-    "C11": "Later additions: a strict_order block lists only comment-absorbing parts (R11).",
-    "C12": "Later additions: physical lines are newline-terminated lines only (R9, shared with C07.R5).",
+           "(R11, 24 bindings); the table registry is wiped as a whole only by ParserFactory.create (R12). Also: memo purity extended to process-wide parser state (R13, 742 functions).",
+    "C11": "Later additions: a strict_order block lists only comment-absorbing parts (R11). Also: no reader method calls self.put_item() on an item it discovers (R6); give-back is last-in first-out on every path (R12, path-sensitive stack).",
+    "C12": "Later additions: physical lines are newline-terminated lines only (R9, shared with C07.R5). Also: the ';' split decision is a function of the item alone (no loop-history flag).",
     "C13": "Later additions: block engine addresses the opening statement by start_idx with includes collected before it (R6); the default "
-           "include path is per reader, never a shared mutable (R7).",
-    "C14": "Later additions: handle_cpp_directive interpreted in free, fixed and strict fixed form, with and without indentation of '#'; the source-form detector does not vote on directive lines (R10, 66 lines; found and fixed F47).",
-    "C15": "Later additions: OMP continuation decision table incl. lines that continue an open character literal (R5).",
+           "include path is per reader, never a shared mutable (R7). Also: a found include file is always expanded (no early return guarded by a grow-only collection); memo purity of the include search (R8); strict-order blocks list only parts (R9).",
+    "C14": "Later additions: handle_cpp_directive interpreted in free, fixed and strict fixed form, with and without indentation of '#'; the source-form detector does not vote on directive lines (R10, 66 lines; found and fixed F47). Also: strict-order blocks list only parts (R11).",
+    "C15": "Later additions: OMP continuation decision table incl. lines that continue an open character literal (R5). Also: the continuation loop interpreted over multi-line conditional statements; the nested include reader is given the conditional-line option (R6).",
     "C16": "Later additions: the loops recording declared entities and ONLY-list names are total (R9: per-iteration must-pass-through, no break/return).",
     "C17": "Later additions: a 2008 matcher that re-calls the generic engine passes the 2003 matcher's option flags (R9c); 2008 printers "
-           "agree with the 2003 printers on every concrete 2003 result pattern (R13, both printers interpreted).",
+           "agree with the 2003 printers on every concrete 2003 result pattern (R13, both printers interpreted). Also: isinstance tests in shared code name classes whose 2008 counterparts derive from them (R14, 39 tests); the class-local round trip under both grammars gives the same acceptance and text (R15, 251 samples); 2008 overrides of list elements register themselves (R16).",
     "C18": "Later additions: no attribute hook reading instance state and no immutable-builtin subclass whose __new__ cannot take the plain "
-           "value on any class reachable from a tree (R7, 535 classes).",
-    "C19": "Later additions: fparser1 length/kind selector helpers decided as tables (R12, 46 rows; found and fixed F44); the list/spec helpers of fparser.common.utils decided as tables with a model of the reader item (R13, 24 rows; 2 known rows, F48).",
+           "value on any class reachable from a tree (R7, 535 classes). Also: regex match objects and `other.attr = <call>` in the reachable-state rule (R4); nodes of a block are not chained to each other (R8).",
+    "C19": "Later additions: fparser1 length/kind selector helpers decided as tables (R12, 46 rows; found and fixed F44); the list/spec helpers of fparser.common.utils decided as tables with a model of the reader item (R13, 24 rows; 2 known rows, F48). Also: statement round trip by interpretation over 162 samples (R14: class match pattern, process_item, printer; token-level equality up to 9 listed canonicalisations; found and fixed F52, F53).",
 }
 
 NA = {
